@@ -58,8 +58,8 @@ CONFIGS = [(-7.0, 7.0), (-10000.0, 10000.0)]
 # the first N cases of each C10 family (YAML makes a case ~5x dearer than in C10)
 PER_FAMILY = {"quick": {"plain": 220, "min": 80, "awkward": 220, "above": 30, "digits": 16, "genegroup": 12, "noname": 12,
                         "nocharge": 12, "precision": 70, "emptyreaction": 10, "noobjective": 10},
-              "thorough": {"plain": 3000, "min": 1000, "awkward": 3000, "above": 300, "digits": 100, "genegroup": 60, "noname": 60,
-                           "nocharge": 60, "precision": 800, "emptyreaction": 40, "noobjective": 40}}
+              "thorough": {"plain": 1500, "min": 500, "awkward": 1500, "above": 150, "digits": 60, "genegroup": 40, "noname": 40,
+                           "nocharge": 40, "precision": 400, "emptyreaction": 30, "noobjective": 30}}
 YAML_VARIANTS = [("yaml-str", False, None), ("yaml-str", True, None), ("yaml-path", False, None), ("yaml-path", True, None),
                  ("yaml-handle", False, None)]
 
